@@ -295,10 +295,115 @@ fn async_parse_noinspect(data: &Arc<Vec<u8>>, chunk: usize) -> (String, (), ()) 
     (s, (), ())
 }
 
+// ------------------------------------------------------------------ hash-flood family (C15)
+//
+// The attribute maps are randomly keyed per instance on the pinned tree, so nobody can prepare colliding
+// names. If a change makes the hasher deterministic (same hash for the same name in every instance), a
+// peer can: this family then searches names whose hashes share their low 16 bits under the library's OWN
+// hasher (reached through HashMap::hasher(), autoref-specialised so that another container type simply
+// yields "not applicable") and the parse of n such attributes is measured like every other family.
+
+pub trait HasherProbe {
+    fn probe(&self, name: &str) -> Option<u64>;
+}
+impl<S: std::hash::BuildHasher> HasherProbe for std::collections::HashMap<String, IppAttribute, S> {
+    fn probe(&self, name: &str) -> Option<u64> {
+        Some(self.hasher().hash_one(name))
+    }
+}
+pub trait HasherProbeFallback {
+    fn probe(&self, _name: &str) -> Option<u64> {
+        None
+    }
+}
+impl<T> HasherProbeFallback for &T {}
+
+fn lib_hash(g: &IppAttributeGroup, name: &str) -> Option<u64> {
+    #[allow(unused_imports)]
+    use HasherProbeFallback as _;
+    g.attributes().probe(name)
+}
+
+/// None = hasher keyed per instance (or not reachable): the family does not apply
+pub fn flood_names(count: usize) -> Option<Vec<String>> {
+    let a = IppAttributeGroup::new(DelimiterTag::JobAttributes);
+    let b = IppAttributeGroup::new(DelimiterTag::JobAttributes);
+    let c = IppAttributeGroup::new(DelimiterTag::PrinterAttributes);
+    let probes = ["probe-name", "job-id", "x"];
+    for p in probes {
+        let (ha, hb, hc) = (lib_hash(&a, p)?, lib_hash(&b, p)?, lib_hash(&c, p)?);
+        if ha != hb || ha != hc {
+            return None;
+        }
+    }
+    // deterministic across instances: collect names with equal low 16 hash bits
+    let target = lib_hash(&a, "flood-0")? & 0xffff;
+    let mut out = vec![];
+    let mut i: u64 = 0;
+    while out.len() < count && i < 4_000_000_000 {
+        let name = format!("f{i:x}");
+        if lib_hash(&a, &name)? & 0xffff == target {
+            out.push(name);
+        }
+        i += 1;
+    }
+    Some(out)
+}
+
+/// `floodgen --count N --out FILE`: writes colliding names (one per line) or "KEYED"
+pub fn run_floodgen(args: &Args) {
+    let count = args.u64("--count", 20000) as usize;
+    let out = args.str("--out", "/dev/stdout");
+    match flood_names(count) {
+        None => {
+            std::fs::write(&out, "KEYED\n").unwrap();
+            println!("FLOOD hasher is keyed per instance (or not a HashMap): hash-flood family not applicable");
+        }
+        Some(names) => {
+            std::fs::write(&out, names.join("\n") + "\n").unwrap();
+            println!("FLOOD hasher is deterministic across instances: {} colliding names written", names.len());
+        }
+    }
+}
+
+/// message with the first n colliding names as attributes of one group
+pub fn flood_message(names: &[String], n: usize) -> Vec<u8> {
+    let mut v = gen::HDR.to_vec();
+    v.push(0x02);
+    for name in names.iter().take(n) {
+        gen::tnv(&mut v, 0x21, name.as_bytes(), &[0, 0, 0, 1]);
+    }
+    v.push(0x03);
+    v
+}
+
 /// `cost`: parse one family member and exit (run under cachegrind by the driver); prints the allocation figures
 pub fn run_cost(args: &Args) {
     let fam = args.str("--family", "nest");
     let size = args.u64("--size", 4096) as usize;
+    if fam == "hash-flood" {
+        // names prepared by `floodgen` (natively); validate under THIS process's hasher first
+        let file = args.str("--names-file", "");
+        let names: Vec<String> = std::fs::read_to_string(&file).unwrap_or_default().lines().map(|s| s.to_string()).collect();
+        let g = IppAttributeGroup::new(DelimiterTag::JobAttributes);
+        let ok = names.len() > 100 && {
+            let t = lib_hash(&g, &names[0]).map(|h| h & 0xffff);
+            t.is_some() && names.iter().take(100).all(|n| lib_hash(&g, n).map(|h| h & 0xffff) == t)
+        };
+        if !ok {
+            println!("COST family=hash-flood NOT-APPLICABLE (the names do not collide under this process's hasher)");
+            return;
+        }
+        let n = (size / 12).min(names.len());
+        let data = Arc::new(flood_message(&names, n));
+        let before = vkit::alloc::snap();
+        let (src, _) = Scripted::new(data.clone(), Plan::full());
+        let r = ipp::parser::IppParser::new(ipp::reader::IppReader::new(src)).parse();
+        let after = vkit::alloc::snap();
+        println!("COST family=hash-flood size={size} input_bytes={} alloc_bytes={} alloc_calls={} outcome={}", data.len(), after.bytes - before.bytes, after.calls - before.calls, if r.is_ok() { "ok" } else { "err" });
+        std::mem::forget(r);
+        return;
+    }
     let (bytes, calls, n, out) = cost_parse(&fam, size, args.has("--async"), args.u64("--chunk", 0) as usize);
     println!("COST family={fam} size={size} input_bytes={n} alloc_bytes={bytes} alloc_calls={calls} outcome={out}");
 }
